@@ -111,7 +111,7 @@ def run(pid, tier, seed):
                 # (a generator dropped while suspended is closed at its yield and never completes: its entry legitimately
                 #  stays; the number of entries left is still compared with the model's below)
                 chk.fail("residue", dict(case, detail="%d per-call entries left in the tracer" % len(tracer.traces)))
-            unresolved = {c.co_qualname for c in er.codes if tracer.cache.get(c) is None}
+            unresolved = {c.co_qualname for c in er.codes if tracerun.resolved(tracer, c) is None}
             for q in unresolved:
                 chk.count("unresolved." + q)
 
@@ -139,10 +139,68 @@ def run(pid, tier, seed):
             chk.count("events", len(er.events))
             if pi == 0:
                 chk.sample({"program": name, "events": [sexp.dumps(e) for e in er.events[:6]], "log": [sexp.dumps(t) for t in ilog[:3]]})
+        twin_modules(chk, pd)
     finally:
         pd.close()
         drv.close()
     return chk.finish(proof, None)
+
+
+TWIN_SRC = ("import functools\n\n\ndef plain(x):\n    return x\n\n\ndef deco(f):\n    @functools.wraps(f)\n    def wrapper(*a):\n        return f(*a)\n"
+            "    return wrapper\n\n\n@deco\ndef wrapped(x):\n    return [x]\n\n\ndef gen(x):\n    yield x\n\n\n"
+            "class K:\n    def meth(self, x):\n        return x\n\n    @classmethod\n    def cmeth(cls, x):\n        return x\n\n"
+            "    @staticmethod\n    def smeth(x):\n        return x\n")
+
+
+def twin_modules(chk, pd):
+    """'attributed to the function whose code ran': the same source in two files (a vendored copy, a generated module)
+    gives code objects that compare EQUAL; calls of either copy must be logged under that copy's function."""
+    from monkeytype.tracing import CallTraceLogger, trace_calls
+
+    class Collect(CallTraceLogger):
+        def __init__(self):
+            self.traces = []
+
+        def log(self, trace):
+            self.traces.append(trace)
+
+    import os
+    for rep in range(2 if chk.tier == "quick" else 40):
+        names = ["c02twin_%d_%d_%s" % (chk.seed % 1000, rep, c) for c in "ab"]
+        mods = []
+        for n in names:
+            os.makedirs(os.path.join(pd.dir, n + "_d"), exist_ok=True)
+            mods.append(pd.load(n, TWIN_SRC))
+        paths = {p for _, p in mods}
+        calls = [(chk.rng.randrange(2), chk.rng.choice(["plain", "wrapped", "gen", "K.meth", "K.cmeth", "K.smeth"]), chk.rng.choice([1, "s", None, 2.5]))
+                 for _ in range(chk.rng.randrange(4, 16))]
+        logger = Collect()
+        with trace_calls(logger, 0, code_filter=lambda code: code.co_filename in paths):
+            for mi, q, v in calls:
+                m = mods[mi][0]
+                if q == "gen":
+                    list(m.gen(v))
+                elif q == "K.meth":
+                    m.K().meth(v)
+                elif q.startswith("K."):
+                    getattr(m.K, q[2:])(v)
+                else:
+                    getattr(m, q)(v)
+        chk.evaluations += 1
+        want = []
+        for mi, q, v in calls:
+            if q == "wrapped":
+                want.append((names[mi], "wrapped", type(v).__name__))      # (the wrapper itself is not resolvable: not logged)
+            else:
+                want.append((names[mi], q, type(v).__name__))
+        got = [(t.func.__module__, t.func.__code__.co_qualname,
+                None if t.func.__code__.co_qualname.endswith("wrapper") else getattr(t.arg_types.get("x"), "__name__", None)) for t in logger.traces]
+        if got != want:
+            i = next((j for j, (a, b) in enumerate(zip(got, want)) if a != b), min(len(got), len(want)))
+            chk.fail("attributed-twin", {"modules": names, "calls": [[names[mi], q, repr(v)] for mi, q, v in calls], "index": i,
+                                         "logged": got[i:i + 3], "completed": want[i:i + 3],
+                                         "detail": "two modules with identical source: a call is attributed to the other module's function"})
+        chk.nontriv("twin|%d" % rep)
 
 
 def replay(path, args):
